@@ -106,6 +106,7 @@ impl DecodeAttributeValue for EvenPort {
 //@item stun_rs :: mod attributes > mod turn > mod even_port > impl DecodeAttributeValue for EvenPort > fn decode
 //@tags C01 C02 C03 C19
 //@stmt "Ok((Self(raw_value[0] & 0x80 == 0x80), EVEN_PORT_SIZE))"
+    proof { lemma_bitops_commute(); }
     proof { let b = raw_value[0]; assert((b & 0x80 == 0x80) == (b >= 0x80)) by (bit_vector); }
 //@end
 }
@@ -388,8 +389,11 @@ impl EncodeAttributeValue for Icmp {
     broadcast use axiom_bounded_u8_ext, axiom_bounded_u16_ext;
 //@before "icmp.encode("
     proof {
+        lemma_bitops_commute();
         assert(icmp_type <= 127 && icmp_code <= 511);
         assert(((icmp_type << 9) | icmp_code) == icmp_type * 512 + icmp_code) by (bit_vector) requires icmp_type <= 127, icmp_code <= 511;
+        // (bitwise or is commutative: the fact above serves whichever way round the code writes the two operands)
+        assert(forall|x: u16, y: u16| #[trigger] (x | y) == (y | x)) by (bit_vector);
     }
 //@stmt "Ok(ICMP_SIZE)"
     proof {
@@ -411,6 +415,7 @@ impl DecodeAttributeValue for Icmp {
     broadcast use axiom_bounded_u8_ext, axiom_bounded_u16_ext;
 //@before "let icmp_type"
     proof {
+        lemma_bitops_commute();
         assert(icmp >> 9 == icmp / 512 && icmp >> 9 <= 127 && 0x01ff & icmp == icmp % 512 && 0x01ff & icmp <= 511) by (bit_vector);
         assert(raw_value@.subrange(2, 4) =~= ctx.raw_value@.subrange(2, 4));
     }
